@@ -128,6 +128,18 @@ def run(ctx, rep: Report, deep: bool = False):
                     rep.evaluations += 1
                     rep.nontrivial.add((vi, k, pos, val))
                     rep.feat("field_" + ("name" if pos < 12 else "type" if pos == 16 else "size" if 17 <= pos < 20 else "start" if 20 <= pos < 22 else "padding"))
+            # whole-field boundary values: start sector and size
+            for fld, width, vals in (("start", 2, [0, 1, 2, 3, 13, 14, 15, 11385, 11386, 11387, 0x4000, 0x8000, 0xC000, 0xFFFF]),
+                                     ("size", 3, [0, 1, 139, 140, 141, 8191, 8192, 8193, 0xFFFFFF])):
+                base_off = 20 if fld == "start" else 17
+                for v in vals:
+                    dmg = bytearray(img)
+                    tbl = locate_table(img, disc)
+                    raw = v.to_bytes(width, "little")
+                    for j in range(width - 1):
+                        dmg[tbl + k * ENTRY + base_off + j] = raw[j]
+                    run_case(rep, cases, ctx, rng, bytes(dmg), disc, k, base_off + width - 1, raw[width - 1], base_files, base_names, v in (11386, 0xFFFF, 140))
+                    rep.feat("field_boundary_values")
             # random multi-byte damage
             for _ in range(10 if not full else 60):
                 dmg = bytearray(img)
@@ -148,7 +160,7 @@ def run(ctx, rep: Report, deep: bool = False):
                 rep.disagreements.append({"family": "akai-damage", "op": c.op, "model": (model or "")[:600], "impl": c.impl[:600], "meta": None})
     rep.families["akai-damage"] = {"cases": len(cases), "disagreements": bad}
     rep.sample({"family": "akai-damage", "case": "entry k, byte position p set to v; ls A:/VOL + export compared with the undamaged run"})
-    rep.required_features = ["damaged_images", "field_name", "field_type", "field_size", "field_start", "multi_byte_damage"]
+    rep.required_features = ["damaged_images", "field_name", "field_type", "field_size", "field_start", "multi_byte_damage", "field_boundary_values"]
 
 
 def search(ctx, rep: Report):
